@@ -23,8 +23,8 @@ LEVEL_TEXT = ("Lean 4 theorems for all graphs, selectors, hosts and node-map ite
               "when that closure contains a platform-incompatible target. Tied to the code by differential runs in process and through real "
               "`grog build/test` invocations whose executed commands are compared with the predicted set.")
 LEVEL_NOTE = ("`only_selected_run` (no other command runs) is proved in Props/Compose.lean by composing select_closed / select_eq_closure with the walker "
-              "and pool-task models of C03-C05 (their hypotheses CfgOK.closed and CfgOK.desc_iff are discharged there; acyclicity, which analysis.BuildGraph "
-              "checks (C11), stays a hypothesis); it is also sampled through the CLI traces (clean cache: executed set = selected targets). "
+              "and pool-task models of C03-C05 (their hypotheses CfgOK.closed and CfgOK.desc_iff are discharged there; acyclicity is discharged from C11 "
+              "(acyclic_of_findCycle: FindCycle reporting nothing on a successor function that contains the edges); it is also sampled through the CLI traces (clean cache: executed set = selected targets). "
               "Pattern parsing is the model of C17. "
               "Trusted: Lean kernel; propext/Classical.choice/Quot.sound; the correspondence harness; loaders and cobra/viper flag plumbing (CLI tie only).")
 TECHNIQUE = "Lean 4 proof over an executable model + differential correspondence (in-process selector and real CLI build traces)"
@@ -42,6 +42,11 @@ OBLIGATIONS = [
     "Grog.C12.walker_cfg_ok",
     "Grog.C12.only_selected_run",
     "Grog.C12.unselected_never_started",
+    "Grog.C12.acyclic_of_c11",
+    "Grog.C12.acyclic_of_findCycle",
+    "Grog.C12.only_selected_run_c11",
+    "Grog.C12.selected_all_complete",
+    "Grog.C12.select_eq_closure_parsed",
 ]
 PROP_MODULES = ["GrogModel.Props.C12", "GrogModel.Props.Compose"]
 ASSUMPTIONS = [
